@@ -1,6 +1,6 @@
 SPECIFICATION Spec
 CONSTANTS
-  AskSet <- AskCore
+  AskSet <- AskQuick
   MaxAsk = 2
   MaxToggle = 1
   MaxHold = 0
